@@ -1,8 +1,33 @@
 ----------------------------- MODULE X87PosSelf -----------------------------
 (* Spec-internal obligations of the stack-relative x87 model (setup.sh).     *)
+(* One state per triple (d, x, n): destination position, source position,    *)
+(* number of pops.  Checked in every state:                                  *)
+(*  ArithAt   after  ST(d) := ST(d) op ST(x)  and n pops the computed value   *)
+(*            sits at position d - n (if it is still on the stack) and        *)
+(*            depends on exactly the two operand positions; every other       *)
+(*            position k holds the initial value of position k + n;           *)
+(*  StoreAt   after  ST(d) := ST(0)  and n pops position d - n holds the       *)
+(*            initial value of ST(0);                                         *)
+(*  SetsOK    Reads / Writes of both forms name positions and "x87" only,     *)
+(*            every position whose value moved is written, and a form with    *)
+(*            pops reads and writes TOP ("x87") - but not necessarily every    *)
+(*            position: after fstp st(1) position 0 holds what it held;        *)
+(* plus the constant-level obligations of X87Pos (pop/push, exchange ...).    *)
 EXTENDS X87Pos
 VARIABLE z
-Init == z = 0
+Init == z \in Pos \X Pos \X (0..2)
 Next == UNCHANGED z
-AllOK == PopPushOK /\ PopsOK /\ XchOK /\ ArithOK /\ ArithPopOK
+Items == {StName(i) : i \in Pos} \cup {"x87"}
+ArithAt == LET d == z[1] x == z[2] n == z[3] s == Arith(d, x, n) IN
+   /\ d >= n => s.st[d - n].src = -1 /\ s.st[d - n].deps = {StName(d), StName(x)}
+   /\ \A k \in Pos : k # d - n => s.st[k] = (IF k + n <= 7 THEN Keep(k + n) ELSE New({}))
+StoreAt == LET d == z[1] n == z[3] s == Store(d, n) IN
+   /\ d >= n => s.st[d - n] = Keep(0)
+   /\ \A k \in Pos : k # d - n => s.st[k] = (IF k + n <= 7 THEN Keep(k + n) ELSE New({}))
+SetsOK == LET d == z[1] x == z[2] n == z[3] IN
+   \A s \in {Arith(d, x, n), Store(d, n), Cmp(x, {"zf"}, n)} :
+      /\ Reads(s) \subseteq Items /\ Writes(s) \subseteq Items \cup {"zf"}
+      /\ \A k \in Pos : s.st[k] # Keep(k) => StName(k) \in Writes(s)
+      /\ n > 0 => "x87" \in Reads(s) /\ "x87" \in Writes(s)
+ConstOK == PopPushOK /\ PopsOK /\ XchOK /\ ArithOK /\ ArithPopOK
 =============================================================================
